@@ -475,12 +475,20 @@ class Interp:
             raise OutOfSubset('while loop #%d in %s without invariant' % (no, self.fr.fn_name))
         self.cut_loop(s, spec, no, guard=lambda: self.truthy(self.eval(s.test)), pre_body=None)
 
+    def eval_spec(self, fn, cx, where):
+        """evaluate a contract callback; a callback that refers to a local / field the CODE no longer has does not fit this
+        version of the function: that is an out-of-subset path (decided by the concrete fallback), not a checker crash"""
+        try:
+            return list(fn(cx))
+        except (KeyError, AttributeError) as e:
+            raise OutOfSubset('the contract clause at %s refers to %s, which this version of the function does not have' % (where, e))
+
     def cut_loop(self, s, spec, no, guard, pre_body, after=None):
         """Invariant-based loop cut: init / preservation+variant / exit."""
         ctx, fr = self.ctx, self.fr
         tag = '%s/loop%d' % (fr.fn_name, no)
         cx0 = self.loop_cx()
-        for nm, g in spec.invariant(cx0):
+        for nm, g in self.eval_spec(spec.invariant, cx0, tag):
             ctx.oblige('%s/inv-init:%s' % (tag, nm), g, kind='inv')
         # havoc
         assigned = self.assigned_names(s.body) | set(spec.havoc_extra)
@@ -491,7 +499,7 @@ class Interp:
             for ref, fld in spec.modifies(cx0):
                 self.havoc_field(ref, fld)
         cx1 = self.loop_cx()
-        for nm, g in spec.invariant(cx1):
+        for nm, g in self.eval_spec(spec.invariant, cx1, tag):
             ctx.assume(g)
         which = ctx.choose([z3.BoolVal(True), z3.BoolVal(True)])
         g = guard()
@@ -510,7 +518,7 @@ class Interp:
                     after()
                 return
             cx2 = self.loop_cx()
-            for nm, gl in spec.invariant(cx2):
+            for nm, gl in self.eval_spec(spec.invariant, cx2, tag):
                 ctx.oblige('%s/inv-preserved:%s' % (tag, nm), gl, kind='inv')
             if spec.variant:
                 var1 = spec.variant(cx2)
